@@ -43,6 +43,16 @@ class IndexExpander(ReuseTransformer):
             return x[c]
         return x
 
+    def variable(self, x):
+        """Apply to variable.
+
+        The expansion of the wrapped expression depends on the current
+        component and index values, so the per-label variable cache of
+        Transformer must not be used here.
+        """
+        e, _label = x.ufl_operands
+        return self.visit(e)
+
     def form_argument(self, x):
         """Apply to form_argument."""
         sh = x.ufl_shape
